@@ -114,3 +114,12 @@ Definition relabel (h : hyp) (c : conv) (o : ortho) : ortho :=
   mk_ortho (Eof o (p 0%nat)) (Eof o (p 1%nat)) (Eof o (p 2%nat))
            (nuof o (p 0%nat) (p 1%nat)) (nuof o (p 1%nat) (p 2%nat)) (nuof o (p 0%nat) (p 2%nat))
            (Gof o (p 0%nat) (p 1%nat)) (Gof o (p 1%nat) (p 2%nat)) (Gof o (p 0%nat) (p 2%nat)).
+
+(* ---- hypotheses of plane-stress type: the normal stress that the hypothesis prescribes, as a component of the tensors of that
+   hypothesis.  Plane stress (2D): components (xx, yy, zz, xy), sigma_zz = 0 is the third one.  Axisymmetrical generalised plane stress
+   (1D): components (rr, zz, tt) (OrthotropicAxesConvention.hxx, docs/web/tfel-material.md), the axial stress sigma_zz is prescribed
+   (docs/web/cyrano.md "uniform axial stress"; the bricks write the condition on component 1): the second one. *)
+Definition altered_component (h : hyp) : option nat :=
+  match h with PStress => Some 2%nat | AGPStress => Some 1%nat | _ => None end.
+(* minor of the compliance on the axes (1,3) (r, theta), up to a non-zero factor: (S_11 S_33 - S_13^2) E_1^2 E_3 *)
+Definition axial_minor (o : ortho) : R := E1 o - n13 o * n13 o * E3 o.
